@@ -86,6 +86,7 @@ func runC08(c *core.Ctx) {
 	c.Rule("R7", "published token lists are sorted", 12)
 	c.Rule("R10", "every waiting phase of both lifecyclers heartbeats from a ticker it creates itself with the configured period", 5)
 	c.Rule("R11", "the own entry is removed at one place per lifecycler: in stopping, on the actor itself, after the last heartbeat of the shutdown loop", 2)
+	c.Rule("R12", "the token check before ACTIVE accepts only lists of equal length (a subset of the picked tokens is not 'the same tokens')", 1)
 	c.Rule("R9", "token top-up: request (target − held) tokens and append them to the held list, so a fresh join ends with the configured count and inherited tokens are kept", 5)
 	c.Rule("R8", "tokens inherited from the ring are kept: a heartbeat re-publishes the ring entry's tokens when the entry exists, the remembered ones only when it is missing", 6)
 	pkg := c.Prog.Pkg("ring")
@@ -110,6 +111,7 @@ func runC08(c *core.Ctx) {
 	c09TopUpAs(c, "R9")
 	c08HeartbeatTickers(c)
 	c08Unregister(c)
+	c08CompareTokens(c)
 	c08SingleActor(c, pkg, fns)
 }
 
@@ -949,4 +951,52 @@ func c08Unregister(c *core.Ctx) {
 		}
 		c.Check(ok, "R11", "func="+e.owner+":remove", owner.Pos(), fmt.Sprintf("%s has %d call site(s): %v — one, directly in stopping, after the heartbeat loop has ended", e.remove, len(sites), where), len(sites))
 	}
+}
+
+// c08CompareTokens (R12): after the observe period the lifecycler goes ACTIVE only if the ring still holds
+// the tokens it picked. compareTokens must answer true only for lists of the same length — otherwise a
+// ring entry that lost tokens (conflict resolution, a claim) passes as unchanged and the instance becomes
+// ACTIVE with fewer tokens than configured. Decided as a table: `return true` is unreachable unless
+// len(ring tokens) == len(own tokens), whatever the element comparison does.
+func c08CompareTokens(c *core.Ctx) {
+	pkg := c.Prog.Pkg("ring")
+	fn := an.FindFunc(pkg, "Lifecycler.compareTokens")
+	if fn == nil {
+		c.Miss("R12", "func=Lifecycler.compareTokens", "not found")
+		return
+	}
+	c.Analysed(fn.String())
+	g := fn.Graph()
+	var trues []an.Loc
+	nEq := 0
+	for _, b := range g.Blocks {
+		if r := an.ReturnOf(b); r != nil && len(r.Results) == 1 {
+			v := fn.Canon(r.Results[0])
+			if v == "slices.Equal(recv.getTokens(), p0)" || v == "slices.Equal(p0, recv.getTokens())" {
+				nEq++ // element-wise equality includes the length
+				continue
+			}
+			if v != "false" {
+				trues = append(trues, g.Locate(r))
+			}
+		}
+	}
+	if len(trues) == 0 && nEq > 0 {
+		c.Hold("R12", "func=Lifecycler.compareTokens", fn.Pos(), "answers slices.Equal of the two lists", nEq)
+		return
+	}
+	if len(trues) == 0 {
+		c.Undec("R12", "func=Lifecycler.compareTokens", fn.Pos(), "no accepting return found")
+		return
+	}
+	t := an.Table{G: g, From: g.EntryLoc(), FreeUnknown: true, MayOnly: true, Atoms: []an.Atom{{Name: "len", Values: []string{"lt", "eq", "gt"}}},
+		Binder: &an.Binder{Fn: fn, Cmp: map[string]string{"len(recv.getTokens())|len(p0)": "len"}}, Targets: trues,
+		Want: func(r an.Row, _ int) an.Tri {
+			if r["len"] != "eq" {
+				return an.F
+			}
+			return an.U
+		}}
+	res := t.Run()
+	c.Check(res.OK(), "R12", "func=Lifecycler.compareTokens", fn.Pos(), "no accepting return is reachable when the ring's list and the own list differ in length: "+res.Summary(), res.Rows)
 }
